@@ -12,3 +12,8 @@ ENGINES = [
 
 NOTES = ('All checks are bounded exhaustive explorations executed against the real headers in /repo/code/include; '
          'see DESIGN.md. Exit 0 = held, 1 = VIOLATION, 2 = harness could not be built/run against the given tree (CANNOT-DECIDE).')
+
+reg('C06', 'exploration', 'X (exhaustive input enumerator)', 'bounded exhaustive input enumeration vs 128-bit reference',
+    'Every ordered pair of integer types is driven through the real conversion code with all 8/16-bit source values (all 2^32 values of 32-bit sources in the thorough tier) and a boundary lattice for 64-bit sources, as scalars, as arrays and as stores/loads of sandbox cells under three foreign ABIs; each result is compared with the exact mathematical value or a required abort.',
+    'Trusts the compiler and the 128-bit reference predicate; 64-bit sources are boundary-complete only; X->bool (X != bool) excluded by scope decision (DESIGN.md C06).',
+    'DESIGN.md section 3, C06')
